@@ -51,7 +51,7 @@ use futures::{FutureExt, SinkExt, StreamExt};
 use parking_lot::Mutex;
 use svh::{hex, parse_args, Mode, Rng, Trace};
 use swimos::agent::agent_lifecycle::HandlerContext;
-use swimos::agent::agent_model::AgentModel;
+use swimos::agent::agent_model::{AgentDescription, AgentModel};
 use swimos::agent::event_handler::{EventHandler, HandlerActionExt, UnitHandler};
 use swimos::agent::lanes::{CommandLane, MapLane, ValueLane};
 use swimos::agent::stores::{MapStore, ValueStore};
@@ -85,12 +85,14 @@ use uuid::Uuid;
 #[projections]
 #[derive(AgentLaneModel)]
 struct PAgent {
-    v: ValueLane<i32>,
-    m: MapLane<i32, i32>,
+    // `Option<i32>`: the Recon of `None` is the EMPTY byte string - an empty value is an ordinary value
+    // (stored with an empty payload, restored by an init command with an empty body, never a delete / remove)
+    v: ValueLane<Option<i32>>,
+    m: MapLane<i32, Option<i32>>,
     #[item(transient)]
     t: ValueLane<i32>,
-    vs: ValueStore<i32>,
-    ms: MapStore<i32, i32>,
+    vs: ValueStore<Option<i32>>,
+    ms: MapStore<i32, Option<i32>>,
     #[item(transient)]
     ts: ValueStore<i32>,
     ctl: CommandLane<String>,
@@ -103,10 +105,32 @@ struct PLife {
     log: Arc<Mutex<Log>>,
 }
 
-fn fmt_map(m: &HashMap<i32, i32>) -> String {
+/// The agent with `v` and `vs` starting at `Some(0)`: their default must differ from the empty value, otherwise
+/// "the empty value was not restored" could not be told from "restored".
+fn make_pagent() -> PAgent {
+    let mut a = PAgent::default();
+    let id_of = |a: &PAgent, name: &str| {
+        (0..32u64)
+            .find(|i| a.item_name(*i).map(|n| n == name).unwrap_or(false))
+            .expect("item id")
+    };
+    a.v = ValueLane::new(id_of(&a, "v"), Some(0));
+    a.vs = ValueStore::new(id_of(&a, "vs"), Some(0));
+    a
+}
+
+fn opt_bytes(v: &Option<i32>) -> Vec<u8> {
+    v.map(|n| n.to_string().into_bytes()).unwrap_or_default()
+}
+
+fn hxo(v: Option<i32>) -> String {
+    hex(&opt_bytes(&v))
+}
+
+fn fmt_map(m: &HashMap<i32, Option<i32>>) -> String {
     let mut es: Vec<(Vec<u8>, Vec<u8>)> = m
         .iter()
-        .map(|(k, v)| (k.to_string().into_bytes(), v.to_string().into_bytes()))
+        .map(|(k, v)| (k.to_string().into_bytes(), opt_bytes(v)))
         .collect();
     es.sort();
     render_entries(&es)
@@ -131,19 +155,19 @@ impl PLife {
     #[on_start]
     fn on_start(&self, context: HandlerContext<PAgent>) -> impl EventHandler<PAgent> {
         let log = self.log.clone();
-        context.get_value(PAgent::V).and_then(move |v: i32| {
-            context.get_map(PAgent::M).and_then(move |m: HashMap<i32, i32>| {
+        context.get_value(PAgent::V).and_then(move |v: Option<i32>| {
+            context.get_map(PAgent::M).and_then(move |m: HashMap<i32, Option<i32>>| {
                 context.get_value(PAgent::T).and_then(move |t: i32| {
-                    context.get_value(PAgent::VS).and_then(move |vs: i32| {
-                        context.get_map(PAgent::MS).and_then(move |ms: HashMap<i32, i32>| {
+                    context.get_value(PAgent::VS).and_then(move |vs: Option<i32>| {
+                        context.get_map(PAgent::MS).and_then(move |ms: HashMap<i32, Option<i32>>| {
                             context.get_value(PAgent::TS).and_then(move |ts: i32| {
                                 context.effect(move || {
                                     let line = format!(
                                         "at-start v={} m={} t={} vs={} ms={} ts={}",
-                                        hx(v),
+                                        hxo(v),
                                         fmt_map(&m),
                                         hx(t),
-                                        hx(vs),
+                                        hxo(vs),
                                         fmt_map(&ms),
                                         hx(ts)
                                     );
@@ -161,20 +185,22 @@ impl PLife {
     fn on_ctl(&self, context: HandlerContext<PAgent>, cmd: &String) -> impl EventHandler<PAgent> {
         let parts: Vec<&str> = cmd.split(' ').collect();
         let num = |s: &str| s.parse::<i32>().unwrap_or(0);
+        // `none`: the value with the empty encoding
+        let opt = |s: &str| if s == "none" { None } else { Some(s.parse::<i32>().unwrap_or(0)) };
         match parts.as_slice() {
-            ["vs", n] => context.set_value(PAgent::VS, num(n)).boxed_local(),
+            ["vs", n] => context.set_value(PAgent::VS, opt(n)).boxed_local(),
             ["ts", n] => context.set_value(PAgent::TS, num(n)).boxed_local(),
-            ["ms", "u", k, v] => context.update(PAgent::MS, num(k), num(v)).boxed_local(),
+            ["ms", "u", k, v] => context.update(PAgent::MS, num(k), opt(v)).boxed_local(),
             ["ms", "r", k] => context.remove(PAgent::MS, num(k)).boxed_local(),
             ["ms", "c"] => context.clear(PAgent::MS).boxed_local(),
             ["probe"] => context
                 .get_value(PAgent::VS)
-                .and_then(move |vs: i32| {
-                    context.get_map(PAgent::MS).and_then(move |ms: HashMap<i32, i32>| {
+                .and_then(move |vs: Option<i32>| {
+                    context.get_map(PAgent::MS).and_then(move |ms: HashMap<i32, Option<i32>>| {
                         context.get_value(PAgent::TS).and_then(move |ts: i32| {
                             context.set_value(
                                 PAgent::REP,
-                                format!("vs={};ms={};ts={}", hx(vs), fmt_map(&ms), hx(ts)),
+                                format!("vs={};ms={};ts={}", hxo(vs), fmt_map(&ms), hx(ts)),
                             )
                         })
                     })
@@ -798,7 +824,7 @@ impl Run {
         let fut: AgentFut = match spec {
             Spec::Model { .. } => {
                 let life = PLife { log: log.clone() };
-                let agent = AgentModel::new(PAgent::default, life.into_lifecycle());
+                let agent = AgentModel::new(make_pagent, life.into_lifecycle());
                 let task = AgentRouteTask::new(&agent, descriptor, channels, stop_rx, config, None);
                 Box::pin(task.run_agent_with_store(ready(Ok(store))))
             }
@@ -1306,18 +1332,29 @@ fn recon_str(s: &str) -> String {
 /// One command: to the value lane, the map lane, the transient lane, or (through `ctl`) to a store.
 fn gen_cmd(rng: &mut Rng, present: &mut Vec<i64>, ms_present: &mut Vec<i64>) -> (&'static str, String) {
     let val = if rng.chance(1, 10) { rng.below(100000) as i64 - 50000 } else { rng.below(40) as i64 - 5 };
+    // one value in five is `None`: its Recon encoding is the empty byte string
+    let none = rng.chance(1, 5);
     let key = rng.range(1, 3) as i64;
     let y = rng.below(100);
+    let v_body = |none: bool| if none { hex(b"") } else { hex(val.to_string().as_bytes()) };
+    let m_upd = |key: i64, none: bool| {
+        if none {
+            hex(format!("@update(key:{})", key).as_bytes())
+        } else {
+            hex(format!("@update(key:{}) {}", key, val).as_bytes())
+        }
+    };
+    let sval = if none { "none".to_string() } else { val.to_string() };
     if y < 22 {
-        ("v", hex(val.to_string().as_bytes()))
+        ("v", v_body(none))
     } else if y < 42 {
         present.retain(|k| *k != key);
         present.push(key);
-        ("m", hex(format!("@update(key:{}) {}", key, val).as_bytes()))
+        ("m", m_upd(key, none))
     } else if y < 50 && present.is_empty() && rng.chance(11, 12) {
         // (removing an absent key silences the lane for good — F18 — so it is kept rare)
         present.push(key);
-        ("m", hex(format!("@update(key:{}) {}", key, val).as_bytes()))
+        ("m", m_upd(key, none))
     } else if y < 50 {
         let k = if !present.is_empty() && rng.chance(11, 12) { *rng.pick(&present) } else { key };
         present.retain(|q| *q != k);
@@ -1331,18 +1368,18 @@ fn gen_cmd(rng: &mut Rng, present: &mut Vec<i64>, ms_present: &mut Vec<i64>) -> 
         present.clear();
         ("m", hex(format!("@{}(1)", verb).as_bytes()))
     } else if y < 54 {
-        ("v", hex(val.to_string().as_bytes()))
+        ("v", v_body(none))
     } else if y < 62 {
         ("t", hex(val.to_string().as_bytes()))
     } else if y < 74 {
-        ("ctl", recon_str(&format!("vs {}", val)))
+        ("ctl", recon_str(&format!("vs {}", sval)))
     } else if y < 88 {
         ms_present.retain(|k| *k != key);
         ms_present.push(key);
-        ("ctl", recon_str(&format!("ms u {} {}", key, val)))
+        ("ctl", recon_str(&format!("ms u {} {}", key, sval)))
     } else if y < 93 && ms_present.is_empty() && rng.chance(11, 12) {
         ms_present.push(key);
-        ("ctl", recon_str(&format!("ms u {} {}", key, val)))
+        ("ctl", recon_str(&format!("ms u {} {}", key, sval)))
     } else if y < 93 {
         let k = if !ms_present.is_empty() && rng.chance(11, 12) { *rng.pick(&ms_present) } else { key };
         ms_present.retain(|q| *q != k);
@@ -1352,6 +1389,17 @@ fn gen_cmd(rng: &mut Rng, present: &mut Vec<i64>, ms_present: &mut Vec<i64>) -> 
         ("ctl", recon_str("ms c"))
     } else {
         ("ctl", recon_str(&format!("ts {}", val)))
+    }
+}
+
+/// The empty value as the LAST state of an item (so that it is what a stop / crash / restart has to bring back).
+fn gen_last_none(rng: &mut Rng, r: u64) -> String {
+    let key = rng.range(1, 3);
+    match rng.below(4) {
+        0 => format!("cmd {} v {}", r, hex(b"")),
+        1 => format!("cmd {} m {}", r, hex(format!("@update(key:{})", key).as_bytes())),
+        2 => format!("cmd {} ctl {}", r, recon_str("vs none")),
+        _ => format!("cmd {} ctl {}", r, recon_str(&format!("ms u {} none", key))),
     }
 }
 
@@ -1396,6 +1444,10 @@ fn gen_plan(rng: &mut Rng) -> Plan {
             script.push(format!("drop {}", r));
         }
     }
+    if rng.chance(1, 3) {
+        let r = *rng.pick(&remotes);
+        script.push(gen_last_none(rng, r));
+    }
     if rng.chance(4, 5) {
         script.push("wait".into());
     }
@@ -1409,6 +1461,9 @@ fn gen_plan(rng: &mut Rng) -> Plan {
                 script2.push("wait".into());
             }
         }
+        if rng.chance(1, 3) {
+            script2.push(gen_last_none(rng, 9));
+        }
         script2.push("wait".into());
     }
     Plan { late: false, reinit_early: false, transient, rbuf, script, end: "stop".into(), script2 }
@@ -1420,9 +1475,13 @@ fn gen_late_cmd(rng: &mut Rng, lanes: &[(String, bool, bool)]) -> (String, Strin
     let (name, map, _) = rng.pick(lanes).clone();
     let val = if rng.chance(1, 10) { rng.below(100000) as i64 - 50000 } else { rng.below(40) as i64 - 5 };
     let key = rng.range(1, 3) as i64;
+    // one value in five has an EMPTY body (an ordinary value: stored as such, restored as such)
+    let none = rng.chance(1, 5);
     if map {
         let y = rng.below(100);
-        let body = if y < 70 {
+        let body = if y < 70 && none {
+            format!("@update(key:{})", key)
+        } else if y < 70 {
             format!("@update(key:{}) {}", key, val)
         } else if y < 90 {
             format!("@remove(key:{})", key)
@@ -1430,8 +1489,20 @@ fn gen_late_cmd(rng: &mut Rng, lanes: &[(String, bool, bool)]) -> (String, Strin
             "@clear".to_string()
         };
         (name, hex(body.as_bytes()))
+    } else if none {
+        (name, hex(b""))
     } else {
         (name, hex(val.to_string().as_bytes()))
+    }
+}
+
+/// The empty value as the last state of a lane of the late rig.
+fn gen_late_last_none(rng: &mut Rng, r: u64, lanes: &[(String, bool, bool)]) -> String {
+    let (name, map, _) = rng.pick(lanes).clone();
+    if map {
+        format!("cmd {} {} {}", r, name, hex(format!("@update(key:{})", rng.range(1, 3)).as_bytes()))
+    } else {
+        format!("cmd {} {} {}", r, name, hex(b""))
     }
 }
 
@@ -1508,6 +1579,10 @@ fn gen_plan_late(rng: &mut Rng) -> Plan {
             script.push(format!("drop {}", r));
         }
     }
+    if rng.chance(1, 3) {
+        let r = *rng.pick(&remotes);
+        script.push(gen_late_last_none(rng, r, &lanes));
+    }
     if rng.chance(4, 5) {
         script.push("wait".into());
     }
@@ -1521,6 +1596,9 @@ fn gen_plan_late(rng: &mut Rng) -> Plan {
             if rng.chance(1, 4) {
                 script2.push("wait".into());
             }
+        }
+        if rng.chance(1, 3) {
+            script2.push(gen_late_last_none(rng, 9, &lanes));
         }
         script2.push("wait".into());
     }
